@@ -179,6 +179,12 @@ func (ex *Exec) doReturn(st *State, fr *Frame, res Value) {
 		return
 	}
 	ex.checkDisciplines(st, fr)
+	if len(fr.LeftEarly) > 0 {
+		ex.checkLeftEarly(st, fr, res)
+	}
+	if len(ex.coverClauses(fr)) > 0 {
+		ex.checkCoverReached(st, fr, res)
+	}
 	if len(st.Frames) == 1 {
 		if fr.Idx > 0 && fr.Idx <= len(fr.Block.Instrs) {
 			st.LastReturn = ex.Prog.Fset.Position(fr.Block.Instrs[fr.Idx-1].Pos()).String()
